@@ -73,7 +73,21 @@ def check(case, ctx):
             bad = [(d, g, e) for d, g, e in zip(dicts, got, expected) if g != e][0]
             raise Violation("behaviour-changed-in-process", f"protocol {proto}: options={bad[0]}: loaded {bad[1]} but fresh build {bad[2]}")
         labels.add(f"protocol={proto}")
+    # every dataset (and the root) pickled on its own as well: what pickle meets first matters for shared / cyclic parts
     proto = case["child_protocol"] % (pickle.HIGHEST_PROTOCOL + 1)
+    for name in [None] + [d["name"] for d in spec["defs"]]:
+        obj = G.root if name is None else G.ds[name]
+        exp_obj = fresh.root if name is None else fresh.ds[name]
+        exp_single = expected if name is None else outcomes(exp_obj, dicts)
+        try:
+            loaded = pickle.loads(pickle.dumps(obj, protocol=proto))
+        except Exception as e:
+            raise Violation("cannot-pickle", f"{name or 'root'} alone, protocol {proto}: {type(e).__name__}: {e}")
+        got = outcomes(loaded, dicts)
+        if got != exp_single:
+            bad = [(d, g, e) for d, g, e in zip(dicts, got, exp_single) if g != e][0]
+            raise Violation("behaviour-changed-in-process", f"{name or 'root'} pickled on its own (protocol {proto}): options={bad[0]}: loaded {bad[1]} "
+                                                            f"but fresh build {bad[2]}")
     got = child_outcomes(blobs[proto], dicts)
     if got != expected:
         bad = [(d, g, e) for d, g, e in zip(dicts, got, expected) if g != e][0]
@@ -134,9 +148,9 @@ def forms():
     return st.fixed_dictionaries({"which": st.sampled_from(["explicit_ds", "deco_ds"]), "options": st.sampled_from([{}, {"A": 2}, {"A": None}])})
 
 
-PROFILE = specgen.profile(picklable=True, case_option_preds=False, lazy_root=False, depth=2)
+PROFILE = specgen.profile(picklable=True, case_option_preds=False, lazy_root=False, depth=2, self_overload=0.5)
 WALL_CAP = {"quick": 100, "thorough": 900}
 PARTS = [
-    Part("round-trip", check, strategy=lambda ctx: cases(PROFILE), budget={"quick": 25, "thorough": 400}),
+    Part("round-trip", check, strategy=lambda ctx: cases(PROFILE), budget={"quick": 40, "thorough": 400}),
     Part("decorator-form", check_forms, strategy=lambda ctx: forms(), budget={"quick": 6, "thorough": 12}),
 ]
